@@ -26,7 +26,7 @@ func allForms(vi proto.VInfo) []string {
 	case "icmp4", "icmp6":
 		fs = append(fs, "echo")
 	case "tcp", "tcpparis":
-		fs = append(fs, "synack", "rst", "rstack", "tcpack", "tcpfinack", "tcppshack")
+		fs = append(fs, "synack", "rst", "rstack", "tcpack", "tcpfinack", "tcppshack", "tcpsyn")
 	case "sack":
 		fs = append(fs, "sack1", "sack3", "sackTS")
 	}
